@@ -165,6 +165,31 @@ def ok_edge_of_try(fn, site):
     return None
 
 
+def ok_edge_of_test(fn, site):
+    """(switch_block, ok_target) of ANY test of the Result of `site` — `?`, match, `if let`, is_ok /
+    is_err — whether or not the Err arm leaves the function. For "runs only when it succeeded" questions."""
+    e = ok_edge_of_try(fn, site)
+    if e is not None:
+        return e
+    l = site.dest['l']
+    for (bi, si, how, payload) in fn.uses(l):
+        if how.startswith('arg') and si == 't':
+            s2 = Site(fn, bi, payload)
+            if re.search(r'Result::<T, E>::(is_err|is_ok)$', s2.callee):
+                sw = fn.switch_on_call(s2)
+                if sw is not None:
+                    bb, ts, els, neg = sw
+                    true_t, false_t = (ts.get('0'), els) if neg else (els, ts.get('0'))
+                    return (bb, false_t if s2.name == 'is_err' else true_t)
+        elif how == 'stmt' and payload['rv']['k'] == 'discr' and 'p' not in payload['rv']['pl']:
+            d = payload['d']['l']
+            for (sbi, on, ts, els) in switches(fn):
+                pl = op_place(on)
+                if pl is not None and 'p' not in pl and pl['l'] == d and sbi == bi:
+                    return (sbi, ts.get('0') if '0' in ts else (els if '1' in ts else None))
+    return None
+
+
 def _err_edge_returns(fn, err_t, ok_t, test_bb=None):
     """the Err arm leaves the function (does not come back to what follows the Ok arm). Inside a
     loop the next iteration passes the test again, so both arms are followed only up to it."""
